@@ -1,12 +1,14 @@
 import Mieru.Driver.Core
 import Mieru.Model.Close
+import Mieru.Model.CloseWriter
 namespace Mieru.Driver.Close
 open Mieru.Driver Mieru.Close
 
 /-- event tokens of one packet-transport close history (closing direction of one session):
     `w:<pay>` `s:<seq>:<pay>` `d:<seq>:<pay>` `a:<n>` `i:<n>` as for `arq-run`, plus
-    `C` Close() called, `X` Close() returned, `cs` close request emitted by the writer's endpoint,
-    `cd` close request / response handed to the reader's endpoint. -/
+    `C` Close() called, `X` Close() returned, `cs:<ms>` close request emitted by the writer's endpoint
+    `ms` milliseconds after `C`, `cd` close request / response handed to the reader's endpoint,
+    `lc:<ms>` the reader's session was closed locally after `ms` milliseconds without a datagram. -/
 def parseEv (t : String) : Option Ev :=
   match t.splitOn ":" with
   | ["w", p] => p.toNat?.map (fun p => Ev.arq (.write p))
@@ -20,7 +22,8 @@ def parseEv (t : String) : Option Ev :=
   | ["i", a] => a.toNat?.map (fun a => Ev.arq (.ackIn a))
   | ["C"] => some Ev.closeCall
   | ["X"] => some Ev.closeRet
-  | ["cs"] => some Ev.closeSend
+  | ["cs", ms] => ms.toNat?.map Ev.closeSend
+  | ["lc", ms] => ms.toNat?.map Ev.localClose
   | ["cd"] => some Ev.closeDeliver
   | _ => none
 
@@ -32,7 +35,7 @@ def finish (lens : List Nat) (c : Acc) (n : Nat) (kind : String) : String :=
   let navail := c.s.a.delivered.length
   let avail := (lens.take navail).sum
   let total := c.s.a.segs.length
-  let tail := s!"{b01 c.ordered} {b01 c.patient} {navail} {total} {b01 c.s.rClosed}"
+  let tail := s!"{b01 c.ordered} {b01 c.patient} {navail} {total} {b01 c.s.rClosed} {b01 c.kept}"
   match kind with
   | "eof" =>
     if n ≠ avail then s!"err reader-eof-after {n} model-queue {avail}"
@@ -70,44 +73,96 @@ def runUdp (lens : List Nat) (c : Acc) (i : Nat) : List String → String
         | none => s!"err rejected {i} {t}"
         | some c' => runUdp lens c' (i + 1) ts
 
-/-- stream transport: `D:<len>` data segment of the session, `Q` close request, `P` close response,
-    in wire order; final `R:<bytes read>:<eof|err|blocked>:<bytes written>` -/
-def runTcp (r : CloseStream.SRx) (queued wire : Nat) (afterClose : Bool) (i : Nat) : List String → String
-  | [] => "bad-op"
+/-- stream transport, receiving side: `D:<len>` data segment of the session, `Q` close request, `P` close
+    response, in wire order; final `R:<bytes read>:<eof|err|blocked>:<bytes written>`. The items are
+    run through `CloseStream.run` and the reader's outcome is `CloseStream.readOnce` at the end of the
+    queue (the functions `tcp_close_after_all_data` is about). -/
+def parseItems (i : Nat) (afterClose : Bool) (acc : List CloseStream.Item) : List String → Except String (List CloseStream.Item × List String)
+  | [] => .error "bad-op"
   | t :: ts =>
     match t.splitOn ":" with
     | ["D", n] =>
       match n.toNat? with
-      | none => "bad-op"
+      | none => .error "bad-op"
       | some n =>
-        if afterClose && n > 0 then s!"err data-after-close-request {i}" else
-        let r' := CloseStream.input r (.data (List.replicate n 0))
-        runTcp r' (if r.closed then queued else queued + n) (wire + n) afterClose (i + 1) ts
-    | ["Q"] => runTcp (CloseStream.input r .closeReq) queued wire true (i + 1) ts
-    | ["P"] => runTcp (CloseStream.input r .closeResp) queued wire afterClose (i + 1) ts
-    | ["R", n, kind, total] =>
-      if !ts.isEmpty then "bad-op" else
-      match n.toNat?, total.toNat? with
-      | some n, some total =>
-        let qb := (r.queue.map List.length).sum
-        let tail := s!"{b01 r.closed} {qb} {wire}"
-        if qb ≠ queued then "err internal" else
-        match kind with
-        | "eof" =>
-          if !r.closed then "err reader-eof-on-open-session"
-          else if n ≠ qb then s!"err reader-eof-after {n} model-queue {qb}"
-          else s!"ok {b01 (decide (n < total))} {tail}"
-        | "blocked" => if n ≠ qb then s!"err reader-blocked-after {n} model-queue {qb}" else s!"ok 0 {tail}"
-        | "err" => if n > qb then s!"err reader-read {n} model-queue {qb}" else s!"ok 0 {tail}"
-        | _ => "bad-op"
-      | _, _ => "bad-op"
+        -- in the code as it is nothing of the session follows its close request except further close
+        -- requests / responses (`tcp_writer_close_returns_after_all_data`)
+        if afterClose && n > 0 then .error s!"err data-after-close-request {i}"
+        else parseItems (i + 1) afterClose (acc ++ [.data (List.replicate n 0)]) ts
+    | ["Q"] => parseItems (i + 1) true (acc ++ [.closeReq]) ts
+    | ["P"] => parseItems (i + 1) afterClose (acc ++ [.closeResp]) ts
+    | _ => .ok (acc, t :: ts)
+
+def runTcp (args : List String) : String :=
+  match parseItems 0 false [] args with
+  | .error e => e
+  | .ok (items, rest) =>
+    -- `L` = the reader's session was closed locally (its underlay was torn down)
+    let (loc, rest) := match rest with
+      | "L" :: more => (true, more)
+      | _ => (false, rest)
+    match rest with
+    | [r] =>
+      match r.splitOn ":" with
+      | ["R", n, kind, total] =>
+        match n.toNat?, total.toNat? with
+        | some n, some total =>
+          let sr0 := CloseStream.run CloseStream.SRx.init items
+          let sr := if loc then CloseStream.localClose sr0 else sr0
+          let qb := (sr.queue.map List.length).sum
+          let wire := (items.map (fun | .data p => p.length | _ => 0)).sum
+          let tail := s!"{b01 sr.closed} {qb} {wire} {b01 (!loc)}"
+          let atEnd := CloseStream.readOnce sr sr.queue.length
+          match kind with
+          | "eof" =>
+            if atEnd ≠ .eof then "err reader-eof-on-open-session"
+            else if n ≠ qb then s!"err reader-eof-after {n} model-queue {qb}"
+            else s!"ok {b01 (decide (n < total))} {tail}"
+          | "blocked" =>
+            -- (the reader may simply not have got to its next Read by the bound: no claim about `atEnd`)
+            if n ≠ qb then s!"err reader-blocked-after {n} model-queue {qb}" else s!"ok 0 {tail}"
+          | "err" => if n > qb then s!"err reader-read {n} model-queue {qb}" else s!"ok 0 {tail}"
+          | _ => "bad-op"
+        | _, _ => "bad-op"
+      | _ => "bad-op"
     | _ => "bad-op"
 
-/-- ops:  close-udp L:<len,…> <event>… R:<bytes>:<kind>      close-tcp <item>… R:<bytes>:<kind>:<written> -/
+/-- stream transport, writing side: `W:<len>,<len>…` one `Write` (fragment lengths), `C` Close() called,
+    `O:D:<len>:<ms>` / `O:Q:<ms>` / `O:P:<ms>` a segment of the session written to the connection `ms`
+    after `C` (0 before), `X` Close() returned. Replayed through `CloseStream.waccept`; the reply is
+    `ok <sched> <wireOk> <phase> <fragments> <wire items>`. -/
+def parseWEv (t : String) : Option CloseStream.WEv :=
+  match t.splitOn ":" with
+  | ["W", l] => (parseLens l).map CloseStream.WEv.write
+  | ["C"] => some .closeCall
+  | ["X"] => some .closeRet
+  | ["O", "D", n, ms] => match n.toNat?, ms.toNat? with
+    | some n, some ms => some (.out (.data (List.replicate n 0)) ms)
+    | _, _ => none
+  | ["O", "Q", ms] => ms.toNat?.map (fun ms => .out .closeReq ms)
+  | ["O", "P", ms] => ms.toNat?.map (fun ms => .out .closeResp ms)
+  | _ => none
+
+def phaseName : CloseStream.Phase → String
+  | .idle => "idle" | .waiting => "waiting" | .forcing => "forcing" | .discarding => "discarding" | .done => "done"
+
+def runTcpW (c : CloseStream.WAcc) (i : Nat) : List String → String
+  | [] => s!"ok {b01 c.sched} {b01 (CloseStream.wireOkB c.frags c.wire)} {phaseName c.ph} {c.frags.length} {c.wire.length}"
+  | t :: ts =>
+    match parseWEv t with
+    | none => "bad-op"
+    | some e =>
+      match CloseStream.waccept c e with
+      | none => s!"err rejected {i} {t}"
+      | some c' => runTcpW c' (i + 1) ts
+
+/-- ops:  close-udp L:<len,…> <event>… R:<bytes>:<kind>      close-tcp <item>… R:<bytes>:<kind>:<written>
+          close-tcpw <writer event>… -/
 def handler : IO Handler := pure fun op args => pure <|
   match op with
   | "close-udp" => some (runUdp [] {s := init} 0 args)
-  | "close-tcp" => some (runTcp CloseStream.SRx.init 0 0 false 0 args)
+  | "close-tcp" => some (runTcp args)
+  | "close-tcpw" => some (runTcpW {} 0 args)
   | _ => none
 
 end Mieru.Driver.Close
